@@ -819,10 +819,31 @@ impl<C: Config, Q: Query> Snapshot<C, Q> {
     pub async fn clean_query(
         &mut self,
         clean_edges: Vec<QueryID>,
-        new_tfc: Option<Interned<TransitiveFirewallCallees>>,
+        new_tfc: Option<(
+            Interned<TransitiveFirewallCallees>,
+            ForwardEdgeObservation<C>,
+        )>,
         timestamp: Timestamp,
     ) {
         let mut tx = self.engine().new_write_transaction();
+
+        // The set of firewalls below this query is rebuilt because a callee
+        // announced a different one. What has been seen of the callees'
+        // sets is brought up to date together with it: otherwise a callee
+        // that later returns to an earlier set (A -> B -> A) compares equal
+        // to the stale observation and this query keeps the set for B.
+        let new_tfc = if let Some((set, observation)) = new_tfc {
+            self.engine()
+                .computation_graph
+                .database
+                .forward_edge_observation
+                .insert(*self.query_id(), observation, &mut tx)
+                .await;
+
+            Some(set)
+        } else {
+            None
+        };
 
         let new_node_info = if let Some(x) = new_tfc {
             let mut current_node_info = self.node_info().await.unwrap();
